@@ -468,9 +468,11 @@ func (r *run) blocked(c int, step, waited, where string) {
 			return // another child is still connected: waiting behind it is what the code is meant to do
 		}
 	}
-	perf := append([]string{}, r.out.Calls...)
-	if r.inEpi {
-		perf = append(perf, r.out.Epilogue.Calls...)
+	perf := []string{}
+	for _, x := range append(append([]string{}, r.out.Calls...), r.out.Epilogue.Calls...) {
+		if x != "" {
+			perf = append(perf, x)
+		}
 	}
 	r.out.Blocked = &blockedObs{Child: c, Step: step, Waited: waited, Where: where, Dropped: earlier,
 		Performed: perf, Deadline: r.d.tmo.String()}
@@ -1101,6 +1103,7 @@ func (r *run) epilogue(c int) {
 		ep.Calls = append(ep.Calls, got)
 		if got == "" {
 			ep.Why = "step " + x + " not performed"
+			r.blocked(c, x, "step", "later child after the behaviour")
 			return
 		}
 		if x != "term" || r.d.hook {
@@ -1109,6 +1112,9 @@ func (r *run) epilogue(c int) {
 		name, ok := r.recv(c, "the later child waits for the reply to "+x)
 		if !ok || name == "eof" {
 			ep.Why = "no reply to " + x
+			if !ok {
+				r.blocked(c, x, "reply", "later child after the behaviour")
+			}
 			return
 		}
 		ep.Replies = append(ep.Replies, name)
@@ -1158,14 +1164,17 @@ func (d *driver) apiRun(id0 int) seqOut {
 	case <-time.After(5 * time.Second):
 		r.note("api-hangs", "the package's child-side calls did not return within 5s")
 	}
+	// the Instance calls arrive in order on one channel; the real signal is observed asynchronously on its own
+	// channel, so its position is not asserted here: the three calls first, the signal appended
 	t := time.After(d.tmo)
+	var sigs []string
 collect:
-	for len(out.Calls) < 4 {
+	for len(out.Calls)+len(sigs) < 4 {
 		select {
 		case e := <-d.p.calls:
 			out.Calls = append(out.Calls, e.X)
 		case e := <-d.p.terms:
-			out.Calls = append(out.Calls, e.X)
+			sigs = append(sigs, e.X)
 		case <-d.p.dead:
 			r.parentDied("during the child-side calls")
 			break collect
@@ -1173,6 +1182,7 @@ collect:
 			break collect
 		}
 	}
+	out.Calls = append(out.Calls, sigs...)
 	cr.Shutdown()
 	r.drainCalls("the child-side calls were over")
 	d.p.send(pcmd{Cmd: "end"})
